@@ -7,7 +7,7 @@ NAMES = ["bash", "kernel", "python3-requests", "lib-2to3", "gcc-c++", "a", "java
 VERSIONS = ["1", "4.3.30", "2.7.18~rc1", "1.0^git20200101", "5.14.0", "1_2+b"]
 RELEASES = ["1", "2.el7", "1.fc20", "0.1.rc9.el7cp", "3.el8_4"]
 BIN_ARCHES = ["x86_64", "noarch", "i686", "aarch64", "armhfp", "ppc64le", "s390x", "armv7hl"]
-SIGKEYS = [None, "246110c1", "FD431D51", "aBcD1234"]
+SIGKEYS = [None, "246110c1", "FD431D51", "aBcD1234", "508CE5E666534C2B", "A" * 40, "36c9e38bd2bb1f8a4e1f0c1b4a1f7a5e246110c1", "1", ""]
 
 
 def nevra(rng, name=None, arch=None, epoch=None):
@@ -99,6 +99,21 @@ MODULE_NAMES = ["nodejs", "postgresql", "perl-App-cpanminus", "389-ds", "virt"]
 STREAMS = ["10", "9.6", "rhel", "1.4", "master"]
 
 
+def _module_rpm(rng):
+    """an entry of a module's RPM list: the caller's string, kept verbatim - whatever its spelling"""
+    d = nevra(rng)
+    r = rng.random()
+    if r < 0.6:
+        return fmt(d)
+    if r < 0.7:
+        return "%s-%s-%s.%s" % (d["name"], d["version"], d["release"], d["arch"])            # no epoch
+    if r < 0.8:
+        return fmt(d, rng)                                                                       # padded epoch / .rpm / directory
+    if r < 0.9:
+        return "Packages/%s/%s-%s-%s.%s.rpm" % (d["name"][0], d["name"], d["version"], d["release"], d["arch"])
+    return pick(rng, ["pkg1", "x", "kernel", "a b", "ünï-0:1-1.noarch"])
+
+
 def module_add(rng, variants=VARIANTS, arches=None, invalid=0.25, memo=None):
     arches = arches or pools.ARCHES[:3] + ["src"]
     parts = [pick(rng, MODULE_NAMES), pick(rng, STREAMS)]
@@ -119,7 +134,7 @@ def module_add(rng, variants=VARIANTS, arches=None, invalid=0.25, memo=None):
           "koji_tag": pick(rng, ["module-%s-%s" % (parts[0], parts[1]), "tag-1"]),
           "modulemd_path": "%s/%s/os/repodata/modules.yaml.gz" % (pick(rng, variants), pick(rng, arches)),
           "category": pick(rng, ["binary", "debug", "source"]),
-          "rpms": ([fmt(nevra(rng)) for _ in range(rng.randint(0, 3))] if rng.random() < 0.5 else
+          "rpms": ([_module_rpm(rng) for _ in range(rng.randint(0, 3))] if rng.random() < 0.5 else
                    list(pick(rng, [[], ["a-0:1-1.x86_64"], ["b-0:1-1.noarch", "c-2:2-1.noarch"]])))}
     if rng.random() < 0.2:
         op["rpms_as"] = "tuple"
@@ -158,7 +173,7 @@ def extra_add(rng, variants=VARIANTS, arches=None, invalid=0.25):
           "path": pick(rng, ["%s/%s/os/GPL" % (v, a), "%s/%s/os2/EULA" % (v, a), "%s/%s/osx" % (v, a), "README", "%s/%s/os/a/b/c" % (v, a),
                              "compose/%s/%s/os/GPL" % (v, a), "%s/%s/os/%s/%s/os/LICENSE" % (v, a, v, a)]),
           "size": rng.choice([0, 1, 18092, 2 ** 33]),
-          "checksums": dict((t, hexstr(rng, 8)) for t in subset(rng, pools.CHECKSUM_TYPES, 0, 3))}
+          "checksums": dict((t, hexstr(rng, 8)) for t in subset(rng, pools.CHECKSUM_TYPES + ["SHA256", "Md5", "sha3_256", "x-y"], 0, 3))}
     if rng.random() < invalid:
         k = pick(rng, ["arch", "abs", "empty", "checksums", "variant"])
         if k == "arch":
